@@ -587,6 +587,129 @@ impl Stream for Interfaces
 	}
 }
 
+/// hand-written three-module programs around features the program generator
+/// does not use (`abort!`, `panic!`, exported `extern` definitions with view
+/// parameters): the split program, in every file order, behaves like the
+/// single file made of the same declarations
+struct Features;
+const USES: &[(&str, &str)] = &[
+	("print", "print!(\"seen \", x, \"\\n\");"),
+	("abort", "if x == 1000\n\t{\n\t\tabort!();\n\t}"),
+	("panic", "if x == 1000\n\t{\n\t\tpanic!(\"too much\\n\");\n\t}"),
+];
+impl Stream for Features
+{
+	fn name(&self) -> String
+	{
+		"feature-templates".into()
+	}
+	fn count(&self, _tier: Tier) -> u64
+	{
+		// 27 assignments of builtins to the three modules, 4 extern shapes; 6 orders each
+		((27 + 4) * 6) as u64
+	}
+	fn exhaustive(&self) -> bool
+	{
+		true
+	}
+	fn run(&self, idx: u64, _c: &mut Choices, ctx: &RunCtx) -> CaseOut
+	{
+		let mut out = CaseOut::default();
+		out.key = idx;
+		out.nontrivial = true;
+		let order = perm3(idx);
+		let t = (idx / 6) as usize;
+		let (all, label): ([(&str, String); 3], String) = if t < 27
+		{
+			let (ua, ub, um) = (USES[t % 3], USES[(t / 3) % 3], USES[t / 9]);
+			out.class("feature:builtins in several modules");
+			(
+				[
+					("a.pn", format!("pub fn check(x: i32) -> i32\n{{\n\t{}\n\treturn: x + 1\n}}\n", ua.1)),
+					("b.pn", format!("pub fn guard(x: i32) -> i32\n{{\n\t{}\n\treturn: x + 2\n}}\n", ub.1)),
+					(
+						"main.pn",
+						format!("import \"a.pn\";\nimport \"b.pn\";\n\nfn main() -> i32\n{{\n\tvar x: i32 = guard(check(4));\n\t{}\n\tprint!(x, \"\\n\");\n\treturn: x\n}}\n", um.1),
+					),
+				],
+				format!("{} in a.pn, {} in b.pn, {} in main.pn", ua.0, ub.0, um.0),
+			)
+		}
+		else
+		{
+			let k = t - 27;
+			// an exported C function with a body: its view parameter is a bare
+			// pointer for the definition and for every importer alike
+			let (ty, lit) = [("i32", "[10, 20, 70]"), ("u8", "[1, 2, 3]"), ("i64", "[5, 6, 7]"), ("u16", "[300, 200, 100]")][k];
+			out.class("feature:exported extern definition with a view parameter");
+			(
+				[
+					(
+						"a.pn",
+						format!("pub extern fn total(values: []{ty}, n: usize) -> {ty}\n{{\n\tvar sum: {ty} = 0;\n\tvar i: usize = 0;\n\t{{\n\t\tif i == n\n\t\t\tgoto end;\n\t\tsum = sum + values[i];\n\t\ti = i + 1;\n\t\tloop;\n\t}}\n\tend:\n\treturn: sum\n}}\n"),
+					),
+					("b.pn", format!("import \"a.pn\";\n\npub fn two_of(values: []{ty}) -> {ty}\n{{\n\treturn: total(values, 2)\n}}\n")),
+					(
+						"main.pn",
+						format!("import \"a.pn\";\nimport \"b.pn\";\n\nfn main() -> i32\n{{\n\tvar data: [3]{ty} = {lit};\n\tprint!(total(data, 3), \" \", two_of(data), \"\\n\");\n\treturn: 0\n}}\n"),
+					),
+				],
+				format!("pub extern fn total(values: []{ty}, n: usize) defined in a.pn, called from b.pn and main.pn"),
+			)
+		};
+		let single: String = all
+			.iter()
+			.map(|(_, s)| s.lines().filter(|l| !l.starts_with("import ")).map(|l| format!("{}\n", l)).collect::<String>())
+			.collect::<Vec<_>>()
+			.join("\n");
+		let files: Vec<(String, String)> = order.iter().map(|i| (all[*i].0.to_string(), all[*i].1.clone())).collect();
+		let opts = || alpha::Options {
+			link: true,
+			..Default::default()
+		};
+		let one = alpha::compile_modules(&[("main.pn".to_string(), single.clone())], opts());
+		let o = alpha::compile_modules(&files, opts());
+		let detail = json!({"files": files_json(&files), "single_file": single, "case": label, "single_result": one.summary(), "result": o.summary()});
+		if let Some(e) = one.internal_error.as_ref().or(o.internal_error.as_ref())
+		{
+			out.fail(format!("internal error {}", e.chars().take(50).collect::<String>()), detail);
+		}
+		else if !one.ok
+		{
+			// (the single file is the reference: nothing to compare with)
+			out.discarded = Some(format!("single file rejected {:?}", one.codes));
+		}
+		else if !o.ok
+		{
+			let mut cs = o.codes.clone();
+			cs.sort();
+			cs.dedup();
+			out.fail(format!("module set rejected {:?} although the single file is accepted: {}", cs, label), detail);
+		}
+		else
+		{
+			let r1 = alpha::run_ir(one.linked_ir.as_ref().unwrap(), 10);
+			let r = alpha::run_ir(o.linked_ir.as_ref().unwrap(), 10);
+			if r.timed_out || r1.timed_out
+			{
+				out.discarded = Some("lli watchdog".into());
+			}
+			else if r.stdout != r1.stdout || r.status != r1.status || r.stderr.is_empty() != r1.stderr.is_empty()
+			{
+				out.fail(
+					format!("module set behaves unlike the single file: {}", label),
+					json!({"files": files_json(&files), "single_file": single, "stdout": String::from_utf8_lossy(&r.stdout), "single_stdout": String::from_utf8_lossy(&r1.stdout), "status": r.status, "single_status": r1.status, "stderr": String::from_utf8_lossy(&r.stderr).chars().take(300).collect::<String>()}),
+				);
+			}
+		}
+		if ctx.want_sample
+		{
+			out.sample = Some(json!({"case": label, "files": files_json(&files)}));
+		}
+		out
+	}
+}
+
 struct Probes;
 impl Stream for Probes
 {
@@ -647,6 +770,6 @@ impl Check for C12
 	}
 	fn streams(&self) -> Vec<Box<dyn Stream>>
 	{
-		vec![Box::new(SplitPrograms), Box::new(Negative), Box::new(Histories), Box::new(Interfaces), Box::new(Probes)]
+		vec![Box::new(SplitPrograms), Box::new(Negative), Box::new(Histories), Box::new(Interfaces), Box::new(Features), Box::new(Probes)]
 	}
 }
